@@ -597,7 +597,8 @@ func ruleC02Case(c *Ctx) {
 			return ok && x.Op == "field" && x.Name == "Else"
 		}},
 	}
-	tb := BuildTable(f, atoms, true)
+	// three visits of the loop header: two complete WHEN iterations and the exit (first-match-wins needs two)
+	tb := BuildTable(f, atoms, true, func(cfg *WalkCfg) { cfg.MaxVisits = 3 })
 	if tb.Err != nil {
 		c.Unknown("c02.case", key, c.P.Pos(f.Pos()), tb.Err.Error())
 		return
@@ -619,12 +620,13 @@ func ruleC02Case(c *Ctx) {
 		}
 		target := a[2].String()
 		// the condition assumed true on this path (earlier WHENs were assumed false)
+		// the FIRST condition (in evaluation order) assumed true on this path
 		var trueCond *Term
 		hasCond := false
-		for k, v := range p.Asg {
+		for _, k := range p.Order {
 			if tb.Seen[k] == "cond" {
 				hasCond = true
-				if isTrueC(v) {
+				if isTrueC(p.Asg[k]) && trueCond == nil {
 					trueCond = p.KeyTerm[k]
 				}
 			}
